@@ -169,6 +169,11 @@ func GenC18(seed, run uint64, tier, mode string) *plan.Plan {
 	for i := 0; i < nshared; i++ {
 		p.Shared = append(p.Shared, GenDec(r, wide))
 	}
+	// related operands (same digit count / neighbouring exponent)
+	for i := r.Intn(3); i > 0; i-- {
+		p.Shared = append(p.Shared, Sibling(r, p.Shared[r.Intn(len(p.Shared))]))
+		nshared++
+	}
 	k := 2 + r.Intn(3)
 	if r.Chance(1, 20) {
 		k = 8
